@@ -17,6 +17,7 @@
 package boltz
 
 import (
+	"context"
 	"github.com/google/uuid"
 	"github.com/michaelquigley/pfxlog"
 	"github.com/openziti/foundation/v2/errorz"
@@ -391,6 +392,15 @@ func (store *BaseStore[E]) DeleteById(ctx MutateContext, id string) error {
 		return store.parent.DeleteById(ctx, id)
 	}
 
+	// a cascade delete over a reference cycle comes back to an entity whose delete is already running
+	inProgress := deletesInProgress(ctx)
+	inProgressKey := store.GetEntityType() + "/" + id
+	if _, running := inProgress[inProgressKey]; running {
+		return nil
+	}
+	inProgress[inProgressKey] = struct{}{}
+	defer delete(inProgress, inProgressKey)
+
 	entity, found, err := store.FindById(ctx.Tx(), id)
 	if err != nil {
 		return err
@@ -439,6 +449,20 @@ func (store *BaseStore[E]) DeleteById(ctx MutateContext, id string) error {
 	}
 
 	return nil
+}
+
+type deletesInProgressKey struct{}
+
+// deletesInProgress returns the set of entities (type/id) whose DeleteById is currently running in this mutate context
+func deletesInProgress(ctx MutateContext) map[string]struct{} {
+	if result, ok := ctx.Context().Value(deletesInProgressKey{}).(map[string]struct{}); ok {
+		return result
+	}
+	result := map[string]struct{}{}
+	ctx.UpdateContext(func(c context.Context) context.Context {
+		return context.WithValue(c, deletesInProgressKey{}, result)
+	})
+	return result
 }
 
 func (store *BaseStore[E]) DeleteWhere(ctx MutateContext, query string) error {
